@@ -151,7 +151,7 @@ func runObligations(obls []*Obligation, o RunOpts) {
 						r.Raw += "\ncandidate model from the relaxed query (quantified assumptions dropped) by " + r2.Solver
 					}
 				}
-				if ob.WantSat && (r.Status == "unknown" || r.Status == "timeout") {
+				if ob.WantSat && (r.Status == "unknown" || r.Status == "timeout" || r.Status == "error") {
 					// vacuity/cover query with quantified assumptions: decide it on the quantifier-free part
 					// (unsat there is a definite contradiction; sat there is accepted and noted)
 					r2 := Solve(ob.Unit.RelaxedQuery(ob), SolveOpts{TimeoutMs: o.TimeoutMs})
